@@ -33,7 +33,6 @@ func run(e *core.Env) {
 	})
 	n := len(ms.Nodes)
 	parser := frame.NewFrameBuilder()
-
 	// Flood rules are checked on every announcement a router hands to a link.
 	type inst struct {
 		crossings int
@@ -62,6 +61,9 @@ func run(e *core.Env) {
 			insts[v.Instance] = in
 		}
 		in.crossings++
+		if e.Trace {
+			e.Logf("ann %s>%s origin=%d depth=%d t=%s", c.From.Name, c.To.Name, oi, len(v.Hops), time.Now().Format("05.000"))
+		}
 		set := func(cls, format string, args ...any) {
 			if floodViolation == "" {
 				floodViolation, floodDetail = cls, fmt.Sprintf(format, args...)
